@@ -559,6 +559,33 @@ func ownershipScripts(n int, each func(sc script)) {
 	}
 }
 
+// states: the Escape decision taken from every state of the automaton: a prefix that leaves the
+// parser in that state, an ESC, then silence of each length, then each kind of continuation
+func stateScripts(each func(sc script)) {
+	prefixes := []string{"", "a", "\u00e9", "\x1b ", "\x1b[", "\x1b[1", "\x1b[1;", "\x1b[ ", "\x1b[1<", "\x1bO", "\x1bP", "\x1bP1", "\x1bP$", "\x1bP1<", "\x1bPq", "\x1bPqd",
+		"\x1b]", "\x1b]0", "\x1b]0;t", "\x1bX", "\x1bXt", "\x1b^t", "\x1b_", "\x1b_Gi", "\x1b]0;t\x1b\\", "\x1bPqd\x07", "\x1b]0;t\x18"}
+	follows := []string{"", "x", "\\", "[A", "]0;u\x07", "\x1b", "\x1b\\"}
+	for _, pre := range prefixes {
+		for _, g := range []gap{short, boundary, long} {
+			for _, f := range follows {
+				for _, end := range []endKind{endEOF, endErr} {
+					if f == "" {
+						each(script{Chunks: []chunk{{pre + "\x1b", short}}, End: end, EndGap: g})
+						continue
+					}
+					egs := []gap{short}
+					if strings.HasSuffix(f, "\x1b") {
+						egs = []gap{short, long}
+					}
+					for _, eg := range egs {
+						each(script{Chunks: []chunk{{pre + "\x1b", short}, {f, g}}, End: end, EndGap: eg})
+					}
+				}
+			}
+		}
+	}
+}
+
 // depth: scripts explored with preemptions
 func depthScripts(each func(sc script)) {
 	bodies := [][]chunk{
@@ -686,6 +713,7 @@ func main() {
 		case "breadth":
 			breadthScripts(breadthN, each(0, 0))
 			byteSplitScripts(each(1, 0))
+			stateScripts(each(1, 0))
 			ownershipScripts(r.Pick(3, 4), each(1, 0))
 		case "depth":
 			depthScripts(each(depthBound, int64(r.Pick(400000, 4000000))))
@@ -697,7 +725,7 @@ func main() {
 	ex := r.Get("executions")
 	r.Finish(explore.Coverage{
 		States: -1, Transitions: r.Get("points"), Traces: ex, Evaluations: ex,
-		Rule: fmt.Sprintf("stateless exploration of thread schedules of the real ansi.Parser under the controlled scheduler (scheduling points: every channel operation, select, close, mutex operation, thread start, timer firing, reader wait). Breadth: every string of up to %d symbols over a 12-symbol alphabet, as one chunk and cut in two at every position with short / boundary / long arrival gaps, ending in EOF or a read error, all schedules without preemption (non-preemptive switches are free); byte-level chunkings of multi-byte input with <=1 preemption; ownership: every sequence of up to %d complete control sequences out of 19 (each dispatch path that hands storage to the consumer) with a consumer that retains everything or hands back one late, <=1 preemption. Depth: 14 input bodies x end kinds x consumer modes (hand back at once / retain everything / hand back one late) x Close from a second thread with a reader that returns afterwards, all schedules with <=%d deviations (preemption, or timer fired while a thread could run). Oracle per execution: no panic, no hang, no goroutine blocked at the end, exactly one EOF marker as last item, channel closed, WaitClose returns, retained sequences unchanged, item list equal to (prefix of, with Close) a list admitted by the reference automaton for the gap pattern. distinct = (script, bound) pairs", breadthN, r.Pick(3, 4), depthBound),
+		Rule: fmt.Sprintf("stateless exploration of thread schedules of the real ansi.Parser under the controlled scheduler (scheduling points: every channel operation, select, close, mutex operation, thread start, timer firing, reader wait). Breadth: every string of up to %d symbols over a 12-symbol alphabet, as one chunk and cut in two at every position with short / boundary / long arrival gaps, ending in EOF or a read error, all schedules without preemption (non-preemptive switches are free); byte-level chunkings of multi-byte input with <=1 preemption; states: 27 prefixes that leave the automaton in each of its states (incl. every string state with and without content, and just after ST / BEL / CAN) + ESC + silence of each length + 7 continuations, <=1 preemption; ownership: every sequence of up to %d complete control sequences out of 19 (each dispatch path that hands storage to the consumer) with a consumer that retains everything or hands back one late, <=1 preemption. Depth: 14 input bodies x end kinds x consumer modes (hand back at once / retain everything / hand back one late) x Close from a second thread with a reader that returns afterwards, all schedules with <=%d deviations (preemption, or timer fired while a thread could run). Oracle per execution: no panic, no hang, no goroutine blocked at the end, exactly one EOF marker as last item, channel closed, WaitClose returns, retained sequences unchanged, item list equal to (prefix of, with Close) a list admitted by the reference automaton for the gap pattern. distinct = (script, bound) pairs", breadthN, r.Pick(3, 4), depthBound),
 		Exhaustive: r.Get("scripts_capped") == 0,
 		Bounds: map[string]any{"breadth_symbols": breadthN, "deviation_bound": depthBound, "scripts": r.Get("scripts"), "scripts_capped": r.Get("scripts_capped"),
 			"scripts_with_several_outcomes": r.Get("scripts_with_several_outcomes"), "step_limit": 4000},
